@@ -19,17 +19,17 @@ CHECKS = {
  "C09": dict(
    category="model_checking",
    text="Reasm.tla is the property in functional form (Judge); ReasmGen.tla enumerates all scenarios in the bound (all segment intervals, SYN/FIN, FlushAll, age flushes) and checks an ideal assembler against Judge; every scenario is replayed on the real reassembly.Assembler under seeded configurations (page limits, KeepFrom policies, forced start, ISNs around the 32-bit wrap, multi-page segments) and TLC validates every delivery in stream offsets.",
-   design_ref="4/C09", technique="TLA+ property spec + TLC scenario enumeration + replay + TLC trace validation",
+   design_ref="4/C09", technique="TLA+ property spec + TLC scenario enumeration + replay + TLC trace validation; thorough: implementation-shaped TLA+ transcription (ReasmImpl.tla) model-checked against the property spec, behaviours replayed on the real code with drift comparison",
    note="Positions are inferred from delivered content; conflicting retransmissions out of scope; small-scope exhaustive plus random."),
  "C10": dict(
    category="model_checking",
    text="Same specification and scenario space as C09, replayed on the real tcpassembly.Assembler (one event per Reassembly); TLC validates order, exactly-once, skip values and their cause.",
-   design_ref="4/C10", technique="TLA+ property spec + TLC scenario enumeration + replay + TLC trace validation",
+   design_ref="4/C10", technique="TLA+ property spec + TLC scenario enumeration + replay + TLC trace validation; thorough: implementation-shaped TLA+ transcription (TcpasmImpl.tla) model-checked against the property spec, behaviours replayed on the real code with drift comparison",
    note="As C09."),
  "C11": dict(
    category="model_checking",
    text="Lifecycle clauses of Reasm.tla (New/Complete exactly once, no data after completion, no pages / removable connections after FlushAll, page-limit bound, age-flush clauses) validated by TLC on traces of both real assemblers over the TLC-generated and random multi-connection scenarios, with read-only hook scalars logged after every API call.",
-   design_ref="4/C11", technique="TLA+ property spec + TLC scenario enumeration + replay + TLC trace validation (hooks: read-only accessors)",
+   design_ref="4/C11", technique="TLA+ property spec + TLC scenario enumeration + replay + TLC trace validation (hooks: read-only accessors); scripted scenarios escalated from the implementation-shaped models (every run) and their behaviours replayed (thorough)",
    note="Hook accessors (build tag verif) are trusted to report pageCache.used / pool size / queued pages faithfully."),
  "C13": dict(
    category="model_checking",
